@@ -23,7 +23,7 @@ namespace Tls.Resume
 abbrev Ver := Nat × Nat
 
 inductive Alert where
-  | illegal_parameter | handshake_failure | unexpected_message
+  | illegal_parameter | handshake_failure | unexpected_message | bad_record_mac
 deriving DecidableEq, Repr
 
 inductive Hash where
@@ -489,7 +489,11 @@ def outcome12 (dec : Decision) (sess : Option CSess) (sentSid : Bytes) (newSid :
   | .external _ => ⟨.raised, .raised, false, false⟩
   | .resume s =>
     (match clientResume12 sess sentSid s.sessionID s.suite with
-     | .resumed => ⟨.done, .done, true, true⟩
+     | .resumed =>
+       -- both ends derive the keys from their own copy of the master secret; the client cannot
+       -- read the server's Finished unless it holds the session's secret
+       if (sess.map (·.secret)) == some s.secret then ⟨.done, .done, true, true⟩
+       else ⟨.localAlert .bad_record_mac, .remoteAlert .bad_record_mac, false, false⟩
      | .alert a => ⟨.localAlert a, .remoteAlert a, false, false⟩
      -- abbreviated handshake against a client that expects Certificate
      | .full => ⟨.localAlert .unexpected_message, .remoteAlert .unexpected_message, false, false⟩)
@@ -582,6 +586,7 @@ inductive Edit where
   | setSuites (l : List Nat)
   | setSid (b : Bytes)
   | setTicket (t : Option Bytes)
+  | badBinder (i : Nat)            -- corrupt the i-th PSK binder
 deriving Repr
 
 def applyEdit (h : Hello) : Edit → Hello
@@ -593,6 +598,7 @@ def applyEdit (h : Hello) : Edit → Hello
   | .setSuites l => { h with suites := l }
   | .setSid b => { h with sessionId := b }
   | .setTicket t => { h with ticket := t }
+  | .badBinder i => { h with psk := h.psk.map (fun ids => modifyAt ids i (fun id => { id with binder := none })) }
 
 structure HsArgs where
   srv : Nat
